@@ -19,9 +19,12 @@ CLAIMED = {
         "Theorems C04_state/C04_outcome (Props/C04.v): for every in-domain, structurally valid expression and every assignment the model's evaluation returns the "
         "recursive four-valued semantics and the documented outcome mapping; no bound on size. The model (coq/Model/EvalRC.v) uses the operators and key ranges "
         "regenerated from /repo and is tied to ahbicht by the correspondence: every tree with <= 3 leaves x all assignments (exhaustive) plus random trees, "
-        "comparing node kind, state, hint text and the collected expression string.",
-        "Trusted: Coq kernel, translator (Gen_logic, Gen_ranges), the hand-written model of Lark's Transformer order / VisitError unwrapping and of the two expression builders "
-        "(validated only by the correspondence sample), dict-based evaluators.",
+        "comparing node kind, state, hint text and the collected expression string. Since the fourth build round the four transformer callbacks, the hint builder and "
+        "requirement_constraint_evaluation on all trees with <= 2 leaves are additionally EXECUTED by the translator on finite universes and the rows proved equal to the model "
+        "(C04_transformer_callbacks_are_the_regenerated_table: 3600 rows, C04_hint_builder_is_the_regenerated_table, C04_requirement_constraint_evaluation_is_the_regenerated_table), and the "
+        "node builder is proved to refine the sequential model under every schedule (C04_node_builder_under_every_schedule).",
+        "Trusted: Coq kernel, translator (Gen_logic, Gen_ranges; the execution-based Gen_rccb / Gen_fcmsg / Gen_rctail), the hand-written model of Lark's Transformer order / VisitError "
+        "unwrapping beyond the regenerated scope (validated by the correspondence sample), dict-based evaluators.",
         "DESIGN.md section 5 C04",
     ),
     "C05": (
